@@ -126,6 +126,13 @@ pub fn render(c: &Cell) -> Rendered {
     if c.ctx == "argxp" {
         lines.push(format!("extern fn callee(q: {});", syntax(&c.tt)));
     }
+    if c.x.starts_with("sib_") {
+        lines.push("fn pick(i: usize) -> usize;".to_string());
+        lines.push("fn twice(v: i32) -> i32;".to_string());
+        lines.push("fn zero() -> usize;".to_string());
+        lines.push(format!("struct MC {{ n: i32, v: {} }}", syntax(&c.et)));
+        lines.push(format!("struct MC3 {{ a: [2]i32, v: {} }}", syntax(&c.et)));
+    }
     if c.ctx == "arg" || c.ctx == "argmiss" {
         match c.x.as_str() {
             "elem" => lines.push(format!("fn sink_v(v: []{});", syntax(&c.tt))),
@@ -159,6 +166,9 @@ pub fn render(c: &Cell) -> Rendered {
     if c.kind == "var" {
         lines.push(format!("\tvar b: {} = {};", syntax(&c.d), value(&c.d, 1)));
     }
+    if c.x.starts_with("sib_") {
+        lines.push(format!("\tvar tgt: [2]{} = [{}, {}];", syntax(&c.et), value(&c.et, 20), value(&c.et, 30)));
+    }
     let mut r = format!("{}b", "&".repeat(c.k));
     for s in &c.path {
         if s == "i" {
@@ -170,6 +180,21 @@ pub fn render(c: &Cell) -> Rendered {
     }
     let construct = match c.ctx.as_str() {
         "assign" => format!("\t{} = {};", r, value(&c.et, 40)),
+        "read" if c.x.starts_with("sib_") => {
+            // the whole-aggregate copy next to an expression evaluated earlier in the same statement
+            let et = syntax(&c.et);
+            match c.x.as_str() {
+                "sib_idx" => format!("\ttgt[pick(1usize)] = {};", r),
+                "sib_idx0" => format!("\ttgt[1usize] = {};", r),
+                "sib_zero" => format!("\ttgt[zero()] = {};", r),
+                "sib_member" => format!("\tvar r: MC = MC {{ n: twice(3i32), v: {} }};", r),
+                "sib_member0" => format!("\tvar r: MC = MC {{ n: 6i32, v: {} }};", r),
+                _ => {
+                    let _ = &et;
+                    format!("\tvar r: MC3 = MC3 {{ a: [twice(3i32), 4i32], v: {} }};", r)
+                }
+            }
+        }
         "read" => {
             if c.tt.is_empty() {
                 format!("\tvar r = {};", r)
